@@ -33,7 +33,7 @@ const (
 
 func init() {
 	register("C33", "other", "T14 CodecPair (key layout writer/reader), T15 ConstRelation (widths via types.Sizes / go/constant), T7 Pairing (DB put <-> cache update), T2 Dominates (loop completion, purge before install), T4 GuardedBy, T6 WhoMayWrite/WhoMayCall",
-		"Decides the structure 'GetFrameRoots = registered roots' depends on. Key codec: rootRecordKey concatenates Frame.Bytes, Validator.Bytes, ID.Bytes of its argument (frame first), GetFrameRoots decodes exactly the byte ranges those pieces occupy (widths from types.Sizes / the array length, bounds folded with go/constant) with decoders producing the fields' own types, any key-length test uses the total width, and the scan prefix is the Bytes() of the frame parameter with a nil start on the same Roots table. Registration: the Roots table is only touched by addRoot (Put) and GetFrameRoots (NewIterator); the stored record carries the frame parameter and the root's Creator()/ID(); after the Put the cached list of that frame is either extended by exactly this record on the 'frame is cached' edge (Get-ok) or removed - never added when the frame is not cached (the database stays the source). Query: the cache is filled only after the complete iterator loop (no break, every iteration appends the decoded record to a list that started empty), under the key of the queried frame, and never on the iterator-error path unless the critical-error callback was invoked; a cache hit is returned only on the Get-ok edge. Epoch switch: every installation of a new epoch database (epochDB assignment, MigrateTables(&epochTable, db)) is dominated by FrameRoots.Purge(), and every successful dropEpochDB is followed by openEpochDB. Ownership: only initCache/openEpochDB/addRoot/GetFrameRoots touch cache.FrameRoots. Not decided: set equality under eviction as a runtime fact (follows from 'cache entry = complete list or absent'), emptiness of the database returned by the EpochDBProducer, duplicate registration of the same root, the LRU itself (C29), I/O errors.",
+		"Decides the structure 'GetFrameRoots = registered roots' depends on. Key codec: rootRecordKey concatenates Frame.Bytes, Validator.Bytes, ID.Bytes of its argument (frame first), GetFrameRoots decodes exactly the byte ranges those pieces occupy (widths from types.Sizes / the array length, bounds folded with go/constant) with decoders producing the fields' own types, any key-length test uses the total width, and the scan prefix is the Bytes() of the frame parameter with a nil start on the same Roots table. Registration: the Roots table is only touched by addRoot (Put) and GetFrameRoots (NewIterator); the stored record carries the frame parameter and the root's Creator()/ID(); after the Put the cached list of that frame is either extended by exactly this record on the 'frame is cached' edge (Get-ok) or removed - never added when the frame is not cached (the database stays the source). Query: the cache is filled only after the complete iterator loop (no break, every iteration appends the decoded record to a list that started empty), under the key of the queried frame, and never on the iterator-error path unless the critical-error callback was invoked; a cache hit is returned only on the Get-ok edge. Epoch switch: every installation of a new epoch database (epochDB assignment, MigrateTables(&epochTable, db)) is dominated by FrameRoots.Purge(), and every successful dropEpochDB is followed by openEpochDB. Ownership: only initCache/openEpochDB/addRoot/GetFrameRoots touch cache.FrameRoots; the whole cache struct is handed out only to reset every cache to nil or as part of Close. Cache: every returning path of simplewlru.Cache.Add stores the new value into the key's entry (directly or in a helper that always does), and nothing else overwrites a cached value - so a re-Add of an extended list can never leave the shorter one in place, whatever the weights. The key decoding may live in GetFrameRoots or in one helper the iterator key is handed to. Not decided: set equality under eviction as a runtime fact (follows from 'cache entry = complete list or absent'), emptiness of the database returned by the EpochDBProducer, duplicate registration of the same root, the rest of the LRU (C29), I/O errors.",
 		[]string{"Store.crit (application callback for critical errors) does not return normally after a database error; if it did, a partial scan would be cached", "hash.BytesToEvent is the inverse of hash.Event.Bytes on exactly len(hash.Event) bytes", "the idx codecs are inverse pairs (C32)", "single-threaded use of the store (as documented on AddRoot/GetFrameRoots)"},
 		runC33)
 }
@@ -489,28 +489,11 @@ func runC33(c *core.Ctx) {
 		// it / key variables
 		itVar := errVarOfCall(g, scan.Call) // single-LHS assignment: returns that variable
 		c.Need(itVar != nil && c33singleDef(g, itVar) != nil, "the iterator is held in a variable defined once")
-		var keyVar *types.Var
-		for _, cs := range g.CallsTo(c33ItKey) {
-			if varOf(g, cs.Recv()) == itVar {
-				if v := errVarOfCall(g, cs.Call); v != nil {
-					c.Need(keyVar == nil || keyVar == v, "one key variable")
-					keyVar = v
-				}
-			}
-		}
-		c.Need(keyVar != nil && c33singleDef(g, keyVar) != nil, "key := it.Key() defined once")
-		// the decoded record
-		var lit *ast.CompositeLit
-		g.InspectOwn(func(n ast.Node) bool {
-			if cl, ok := n.(*ast.CompositeLit); ok && lit == nil {
-				if nt, ok := g.Info().TypeOf(cl).(*types.Named); ok && p.ObjName(nt.Obj()) == "abft/election.RootAndSlot" {
-					lit = cl
-					return false
-				}
-			}
-			return true
-		})
-		c.Need(lit != nil, "GetFrameRoots builds an election.RootAndSlot literal")
+		// the decoding, in GetFrameRoots itself or in the one helper the key is handed to (inlined view):
+		// from here on g is the function that holds the decoding and keyVar the key in it
+		view, why := c33decodeView(g, itVar)
+		c.Need(view != nil, "the iterator key is decoded into an election.RootAndSlot literal in GetFrameRoots or in one helper it hands the key to ("+why+")")
+		g, keyVar, lit := view.D, view.Key, view.Lit
 		vals := map[string]ast.Expr{}
 		c33litFields(g, lit, vals)
 		for _, pc := range layout {
@@ -782,15 +765,12 @@ func runC33(c *core.Ctx) {
 		// appended element: the decoded record
 		okRec := false
 		if len(ap.Args) == 2 && !ap.Ellipsis.IsValid() && varOf(g, ap.Args[0]) == listVar {
-			e := ast.Unparen(ap.Args[1])
-			if rv := varOf(g, e); rv != nil {
-				if d := c33singleDef(g, rv); d != nil && d.RHS != nil {
-					e = ast.Unparen(d.RHS)
-				}
-			}
-			if cl, ok := e.(*ast.CompositeLit); ok {
-				if nt, ok := g.Info().TypeOf(cl).(*types.Named); ok && p.ObjName(nt.Obj()) == "abft/election.RootAndSlot" {
-					okRec = true
+			// the record literal built from the current key, here or in the decoding helper (inlined view)
+			if view, _ := c33decodeView(g, itVar); view != nil {
+				okRec = c33yieldsRecord(g, view, ap.Args[1])
+				if okRec && view.Call != nil {
+					// the helper is called once per entry: inside this loop's body
+					okRec = enclosingLoop(g, view.Call.Pos()) == loop
 				}
 			}
 		}
@@ -970,8 +950,12 @@ func runC33(c *core.Ctx) {
 					c.Check(allowed[f.Name][use], short(f.Name)+"|FrameRoots "+use, "T6 WhoMayWrite", sel.Pos(), "allowed use of the roots cache", short(f.Name)+" uses cache.FrameRoots ("+use+"); only initCache (=), openEpochDB (Purge), addRoot (Get/Add/Remove) and GetFrameRoots (Get/Add) may: any other writer can leave a list that is not the frame's complete root set")
 				case c33CacheSt:
 					if !inner[sel] {
-						// the whole cache struct is handed out (reflection): only Close may do that
-						c.Check(f.Name == "abft.Store.Close", short(f.Name)+"|whole cache struct handed out", "T6 WhoMayWrite", sel.Pos(), "Close resets the caches (terminal)", short(f.Name)+" hands out the whole cache struct: FrameRoots can be replaced behind the registry")
+						// the whole cache struct is handed out (reflection): harmless when every cache field is
+						// thereby set to nil (MigrateCaches with a producer that only returns nil: no list
+						// survives, a later use fails loudly instead of serving stale roots); otherwise only
+						// the terminal Close, or a helper reachable from nowhere but Close, may do that
+						okOut, how := c33cacheHandout(f, sel)
+						c.Check(okOut, short(f.Name)+"|whole cache struct handed out", "T6 WhoMayWrite", sel.Pos(), how, short(f.Name)+" hands out the whole cache struct ("+how+"): FrameRoots can be replaced behind the registry")
 					}
 				}
 				return true
@@ -979,6 +963,8 @@ func runC33(c *core.Ctx) {
 		}
 		c.ExpectAtLeast("uses of cache.FrameRoots", nUses, 6)
 	})
+
+	c33CacheAdd(c)
 }
 
 func c33isValueSpec(n ast.Node) bool { _, ok := n.(*ast.ValueSpec); return ok }
